@@ -628,7 +628,8 @@ func runC08(r *Run, p *Prog) {
 			})
 		}
 		r.Stat("B12_guards", n)
-		r.Floor("B12", 4)
+		// (no floor: a template that asks `hasInputs(m)` has no guard of this form; the rule is a contradiction rule)
+		r.Ob("B12", root, "guards on parameter lists were examined", w.funcs[root].Pos(), true, fmt.Sprintf("%d", n))
 	})
 	// ---- B7: the library primitives the stubs delegate flag handling to (re-evaluated from C03/C11): a fresh reply value
 	// per receive and the continues mapping
